@@ -240,6 +240,9 @@ def history_action(rng: random.Random) -> dict:
         mp = rng.choice([MAP_LO, MAP_ODD])
         mp = "".join((ln + " writable=0" if "writable" not in ln else ln.replace(" writable=1", rng.choice([" writable=1", " writable=3", ""]))) + "\n" for ln in mp.splitlines())
         return {"what": "map_flags", "src": mp + f"*={rng.choice([0x008000, 0x808000, 0xC08000]):#x}\n.db 1\nstart:\n.dl start\n", "rom": rom}
+    if 0.17 <= extra < 0.21:
+        # a splice that is never closed (a typo): the source fails, and that is all
+        return {"what": "unterminated_splice", "src": f"*={addr:#x}\n.macro uq(pb) {{\n.db 1\n" + rng.choice(["{{pb}\n}\nuq({\nnop\n})\n", "{{pb\n}}\n}\n", "{{\n"]), "rom": None}
     if extra < 0.07:
         return {"what": "map_without_identifier", "src": ".map bank_range=0x00, 0x3f addr_range=0x8000, 0xffff mask=0x8000\n*=0x008000\n.db 1\n", "rom": None}
     k, mk = rng.randrange(256), rng.randrange(256)
